@@ -1,4 +1,5 @@
 import MiniconfVerif.Lemmas.WalkFrame
+import MiniconfVerif.Lemmas.WalkHist
 
 /-! # C01 — by-key write hits exactly the designated leaf; failed access changes nothing
 
@@ -43,6 +44,16 @@ theorem read_after_write {R : KeySrc → KeySrc → Prop} (hR : Bisim R) (io io2
 theorem chain_equivalent (io : Io) (op : Op) (t : Tree) (a b : List Key) :
     t.walk io op (.chain (.list a) (.list b)) = t.walk io op (.list (a ++ b)) :=
   walk_bisim chainRel_bisim io op t _ _ ⟨a, b, rfl, rfl⟩
+
+/-- **Histories**: after *any* sequence of by-key accesses (any operations, keys, codecs, outcomes — including the
+documented exceptions) the tree is the initial tree except for leaf values: structure, lookups, attributes, the
+runtime state of every Option / enum / wrapper and every leaf kind are unchanged, hence so is its type; and a
+history of reads leaves the tree identical. -/
+theorem histories (t : Tree) (ops : List (Io × Op × KeySrc)) :
+    (t.runOps ops).skel = t.skel ∧ (t.runOps ops).erase = t.erase ∧
+    ((∀ o ∈ ops, o.2.1.isRead = true) → t.runOps ops = t) := by
+  refine ⟨runOps_skel ops t, ?_, fun h => runOps_reads ops h t⟩
+  rw [← erase_skel, runOps_skel ops t, erase_skel]
 
 /-- the documented exception: after a validator rejection the leaf below has been written.
 Witness that the exclusion in `failed_access_changes_nothing` is necessary. -/
